@@ -564,6 +564,41 @@ def gen_flow_star_group(rng, desc, cx):
     return value, layouts, _interleave(rng, spread, extra), kinds, n
 
 
+# ------------------------------------------------------------------------------ the witnesses of the _refuted theorems
+def _m(name, fields):
+    return ("model", name, fields, {}, {})
+
+
+def refutation_witnesses():
+    """(name, model description | "flow", cells, expected) — the exact inputs of the Examples
+    C09_positional_flip_witness / _entry_flip_ / _mixed_flip_ / C09_padded_type_witness in coq/props/C09.v.
+    expected: ("ok", projection) | ("err",).  If the implementation stops behaving like this the refutations no
+    longer describe the code (reported as a disagreement)."""
+    STR, INT = rowlib.STR, rowlib.INT
+    AB = _m("AB", [("a", STR, ""), ("b", STR, "")])
+    RAB = _m("RAB", [("m", AB, {"a": "", "b": ""})])
+    TN = _m("TN", [("tags", ("list", STR), []), ("n", STR, "")])
+    RTN = _m("RTN", [("m", TN, {"tags": [], "n": ""})])
+    AN = _m("AN", [("a", STR, ""), ("n", INT, 0)])
+    RAN = _m("RAN", [("m", AN, {"a": "", "n": 0})])
+    return [
+        ("positional: spread", RAB, [("m.a", "b"), ("m.b", "x")], ("ok", {"m": {"a": "b", "b": "x"}})),
+        ("positional: first value is a field name", RAB, [("m", "b|x")], ("ok", {"m": {"a": "", "b": "x"}})),
+        ("positional: first value is not a field name", RAB, [("m", "c|x")], ("ok", {"m": {"a": "c", "b": "x"}})),
+        ("entry: spread", RTN, [("m.tags.1", "n"), ("m.tags.2", "x"), ("m.n", "foo")], ("ok", {"m": {"tags": ["n", "x"], "n": "foo"}})),
+        ("entry: list-valued positional argument starting with a field name", RTN, [("m", "n;x|foo")], ("ok", {"m": {"tags": [], "n": "foo"}})),
+        ("entry: not a field name", RTN, [("m", "q;x|foo")], ("ok", {"m": {"tags": ["q", "x"], "n": "foo"}})),
+        ("mixed: spread", RAN, [("m.a", "n"), ("m.n", "5")], ("ok", {"m": {"a": "n", "n": 5}})),
+        ("mixed: positional entry is a field name", RAN, [("m", "n|n;5")], ("err",)),
+        ("mixed: not a field name", RAN, [("m", "q|n;5")], ("ok", {"m": {"a": "q", "n": 5}})),
+        ("padded type cell, short header", "flow", [("type", " send_message"), ("message_text", "hi"), ("from", "start")], ("err",)),
+        ("padded type cell, long header", "flow", [("type", " send_message"), ("mainarg_message_text", "hi"), ("from", "start")],
+         ("ok", {"type": "send_message", "mainarg_message_text": "hi"})),
+        ("unpadded type cell, short header", "flow", [("type", "send_message"), ("message_text", "hi"), ("from", "start")],
+         ("ok", {"type": "send_message", "mainarg_message_text": "hi"})),
+    ]
+
+
 # ------------------------------------------------------------------------------ run
 def run(ctx):
     from rpft.parsers.common.cellparser import CellParser
@@ -783,6 +818,23 @@ def run(ctx):
             samples.append(dict(flow_star_cells=layouts[0], flow_indexed_cells=spread, kinds=kinds))
     flush()
     stats["directed_star"] = dstats
+
+    # ------------------------------------------------ the witnesses of the _refuted theorems, on the implementation
+    wstats = {"witnesses": 0}
+    for (name, t, cells, expected) in refutation_witnesses():
+        rowlib.clear_cache()
+        wparser = RowParser(FlowRowModel if t == "flow" else rowlib.py_type(t), CellParser())
+        got = impl_parse(wparser, cells)
+        v.coverage["evaluations"] += 1
+        wstats["witnesses"] += 1
+        same = got[0] == expected[0] and (got[0] != "ok" or all(_deep_eq(got[1].get(k), x) for k, x in expected[1].items()))
+        if not same:
+            ctx.disagree("a witness of the _refuted theorems no longer behaves as proved: " + name, dict(cells=cells), expected, got)
+        if m:
+            req = f"(109 2 {rowlib.e_cells(cells)})" if t == "flow" else f"(109 1 {rowlib.e_rowmodel(t)} {rowlib.e_cells(cells)})"
+            batch.append(([req], "witness: " + name, [cells], [got]))
+    flush()
+    stats["refutation_witnesses"] = wstats
 
     # ------------------------------------------------ short/long header table, row type by row type
     if m:
